@@ -144,6 +144,12 @@ GrowthInside(tick, lo, up, global, initLo, outLo, initUp, outUp) ==
 Credit(L, delta) ==
   LET p == L \otimes delta IN IF WrapMod \preceq p THEN 0 ELSE BDiv(p, Q)
 
+(* reward growth accrued over dt seconds at `em' (Q-scaled tokens per second) shared by in-range
+   liquidity L: floor(dt * em / L); nothing when L = 0, dt = 0, or dt * em does not fit the
+   accumulator width (the program: checked_mul_div overflow => no accrual for that interval).   *)
+RewardAccrues(dt, em, L)     == ~(L \doteq 0) /\ ~(dt \doteq 0) /\ ~(WrapMod \preceq (dt \otimes em))
+RewardGrowthDelta(dt, em, L) == IF RewardAccrues(dt, em, L) THEN BDiv(dt \otimes em, L) ELSE 0
+
 -----------------------------------------------------------------------------
 (* Token-2022 transfer fees (C16).  c = [bps, max]. *)
 TfFee(c, x) == IF c.bps = 0 \/ x \doteq 0 THEN 0 ELSE BMin(MulDivCeil(x, c.bps, 10000), c.max)
